@@ -692,6 +692,7 @@ func init() {
 		astfile := fs.String("astfile", "/repo/ast/ast.go", "ast.go (node documentation for C19)")
 		seed := fs.Int64("seed", 1, "seed for prune sets")
 		dump := fs.String("dump", "", "only render the tapes (plain profile) into a corpus file {dir,name,text}")
+		maxToks := fs.Int("maxtoks", 40, "with -struct: longest sentence (tokens) written; nodes are limited to 1.5 x this")
 		dumpStruct := fs.Bool("struct", false, "with -dump: write {dir, toks, nodes} (token spellings as bytes, node = [first, last, parent]) for TreeFaults.tla")
 		raw := fs.String("raw", "", "inputs {dir,buf} without tapes: the real-vs-real clauses (C01 C04 C05 C06 C17 C19) on whatever is accepted")
 		fs.Parse(args)
@@ -795,7 +796,7 @@ func init() {
 					}
 				}
 				walk(s.Root, 0)
-				if len(rec.Toks) <= 60 && len(rec.Nodes) <= 90 {
+				if len(rec.Toks) <= *maxToks && len(rec.Nodes) <= *maxToks*3/2 {
 					b, _ := json.Marshal(rec)
 					dumpW.Write(b)
 					dumpW.WriteByte('\n')
